@@ -9,7 +9,7 @@ use blots_core::values::format_display_number;
 use proptest::prelude::*;
 use std::cmp::Ordering;
 
-pub const RULE: &str = "doubles from a boundary pool, notation thresholds (1e-4, 1e15) and powers of ten +-4 ulps, 15-digit carry values, subnormals and uniformly random bit patterns; each is rendered by format_display_number (1 in 16 also through the format built-in), parsed by the harness's numeral grammar and compared with the exact decimal expansion of the double. Non-trivial = finite and not an integer below 1e15; distinct by bit pattern.";
+pub const RULE: &str = "doubles from a boundary pool, notation thresholds (1e-4, 1e15) and powers of ten +-4 ulps (and +-400 ulps for 1e-10..1e22), whole numbers 1..10^5 +-4000 ulps, 15-digit carry values, subnormals and uniformly random bit patterns; each is rendered by format_display_number (1 in 16 also through the format built-in), parsed by the harness's numeral grammar and compared with the exact decimal expansion of the double. Non-trivial = finite and not an integer below 1e15; distinct by bit pattern.";
 pub const ASSUMPTIONS: &[&str] = &[
     "Rust's float formatting with explicit precision ({:.1100e}) is exact (trusted base of the decimal model)",
     "the harness decimal arithmetic (model::dec) is correct; it has its own unit test",
@@ -193,6 +193,16 @@ pub fn strategy() -> BoxedStrategy<F> {
         3 => (-320i32..309, -4i64..5, any::<bool>()).prop_map(|(k, d, neg)| {
             let x = neighbours(format!("1e{}", k).parse::<f64>().unwrap(), d);
             if neg { -x } else { x }
+        }),
+        // a wider neighbourhood below / above powers of ten (where the digit count of the value
+        // and of its 15-digit rounding differ) and just above whole numbers
+        2 => (-10i32..23, -400i64..400, any::<bool>()).prop_map(|(k, d, neg)| {
+            let x = neighbours(format!("1e{}", k).parse::<f64>().unwrap(), d);
+            if neg { -x } else { x }
+        }),
+        1 => (1u32..100_000, 0i64..4000, any::<bool>()).prop_map(|(w, d, neg)| {
+            let x = neighbours(w as f64, if neg { -d } else { d });
+            x
         }),
         // values whose 15-digit rounding carries: 9.99999999999999x * 10^k, d.ddd...5 * 10^k
         2 => (-30i32..30, 0u64..2000, any::<bool>()).prop_map(|(k, t, neg)| {
